@@ -186,7 +186,12 @@ fn builtin_get(args: Vec<Rc<Object>>) -> Result<Rc<Object>, String> {
                 Err(String::from("unsupported argument"))
             }
         }
-        Object::Map(map) => Ok(map.get(&args[1])),
+        Object::Map(map) => {
+            if !args[1].is_a_valid_key() {
+                return Err(format!("not a valid key: {}", args[1]));
+            }
+            Ok(map.get(&args[1]))
+        }
         _ => Err(String::from("unsupported argument")),
     }
 }
@@ -199,6 +204,9 @@ fn builtin_contains(args: Vec<Rc<Object>>) -> Result<Rc<Object>, String> {
     match args[0].as_ref() {
         Object::Map(map) => {
             let key = args[1].clone();
+            if !key.is_a_valid_key() {
+                return Err(format!("not a valid key: {}", key));
+            }
             let contains = map.contains(&key);
             Ok(Rc::new(Object::Bool(contains)))
         }
